@@ -107,9 +107,9 @@ class C13(Prop):
     ]
     parallel = False
     BATCH = 320
-    quick_cases = 900
+    quick_cases = 600
     thorough_cases = 14000
-    quick_deadline_s = 70
+    quick_deadline_s = 55
     thorough_deadline_s = 780
     rule = ("fault plans on a fresh real IPython 9 shell per plan: 4 cells from a generator of 20 cell kinds (known-name reads, "
             "from-imports, pinfo, %prun, %run, %debug, multi-line defs, syntax errors, user exceptions, global/attribute "
@@ -184,6 +184,27 @@ class C13(Prop):
                 for exc in (("ValueError", "KeyError") if tier == "thorough" else ("ValueError",)):
                     out.append(dict(config="terminal", loglevel="ERROR", db="good", cells=cells,
                                     faults=[dict(site=site, exc=exc, nth=1, persist=True, msg=msg)]))
+        # round 3: the log level is part of the session state and changes during it; the clauses hold under the level in force
+        mk = lambda kind, k: gen_c13.make_cell(kind, k % gen_c14.N_MODS, k, self._mods())
+        for hookcell in ("pinfo", "complete_global", "prun", "debug", "known", "run"):
+            for sched in (("DEBUG", ["level_INFO"]), ("DEBUG", ["level_ERROR"]), ("INFO", ["level_DEBUG", "level_INFO"]),
+                          ("ERROR", ["level_DEBUG", "level_WARNING"])):
+                lv0, changes = sched
+                cells = [mk("known", 1)] + [mk(changes[0], 0)] + ([mk("plain", 2), mk(changes[1], 0)] if len(changes) > 1 else []) \
+                    + [mk(hookcell, 3), mk("plain", 4), mk("known", 5)]
+                for site in ("db_load", "scan"):
+                    out.append(dict(config="terminal", loglevel=lv0, db="good", cells=cells,
+                                    faults=[dict(site=site, exc="ValueError", nth=2 if site == "db_load" else (3 + len(changes)), persist=True)]))
+        # round 3: a third party registers hooks AFTER enable and BEFORE the fault; they must survive the withdrawal
+        for f in ("f_add_ast", "f_add_cleanup", "f_set_hook", "f_rebind_ast"):
+            for hookcell in ("known", "pinfo", "complete_global", "probe_known"):
+                cells = [mk(f, 0), mk("probe", 1), mk(hookcell, 2), mk("probe", 3), mk("probe_known", 4)]
+                out.append(dict(config="terminal", loglevel="ERROR", db="good", cells=cells, faults=[]))
+                for site, nth in (("db_load", 1), ("scan", 2), ("sym", 3)):
+                    out.append(dict(config="terminal", loglevel="ERROR", db="good", cells=cells,
+                                    faults=[dict(site=site, exc="OSError", nth=nth, persist=True)]))
+            out.append(dict(config="terminal", loglevel="ERROR", db="malformed",
+                            cells=[mk(f, 0), mk("probe", 1), mk("known", 2), mk("probe", 3)], faults=[]))
         # round 2: faults INSIDE the analysis while the cell's binding targets are attributes / subscripts / names
         ntc = len(gen_c13.TARGET_CELLS)
         tsel = range(ntc) if tier == "thorough" else range(0, ntc, 1)
@@ -221,7 +242,8 @@ class C13(Prop):
         cells = [gen_c13.gen_cell(rng, k0 + j, self._mods()) for j in range(4)]
         r = rng.random()
         db = "good" if r < 0.86 else ("malformed" if r < 0.93 else "unreadable")
-        return self._plan(dict(config="terminal", loglevel=rng.choice(["ERROR", "ERROR", "INFO"]), db=db, cells=cells,
+        cells, level0 = gen_c13.add_session_events(rng, cells, self._mods())
+        return self._plan(dict(config="terminal", loglevel=level0 or rng.choice(["ERROR", "ERROR", "INFO"]), db=db, cells=cells,
                                faults=gen_c13.gen_faults(rng)))
 
     # -- implementation ---------------------------------------------------------------
@@ -302,6 +324,27 @@ class C13(Prop):
             if logerr:
                 F("pyflyby's logger printed a 'Logging error' traceback", i,
                   msgs=sorted({f.get("msg", "marker") for f in case.get("faults", [])}))
+            # ---- third-party hook entries: present, untouched and in order, exactly as without pyflyby
+            ha, hb = a.get("hlnames"), b.get("hlnames")
+            if ha is not None and hb is not None:
+                for lname, want in hb.items():
+                    got = [n for n in ha.get(lname, []) if n != "PF"]
+                    if got != want:
+                        F("a third party's hook entries differ from the pyflyby-free run", i, list=lname, got=got[-5:], want=want[-5:],
+                          trace=[t for t in a.get("trace", []) if t[2]][:3])
+            if a["kind"] in ("level", "foreign"):
+                if a["escaped"]:
+                    F("a harness step failed", i, escaped=a["escaped"])
+                continue
+            if a.get("level_before") == "DEBUG":
+                # debug mode (PYFLYBY_LOG_LEVEL=DEBUG / set_level("DEBUG")) re-raises and prints tracebacks by design:
+                # the fail-safe clauses are evaluated under the level in force at the time; only the state checks apply
+                ga, gb = a.get("gstate"), b.get("gstate")
+                if ga is not None and gb is not None and ga != gb:
+                    F("process-global state differs from the pyflyby-free run", i, keys=sorted(k for k in ga if ga[k] != gb.get(k)))
+                if withdrawn_at is None and a["importer"]["state"] == "DISABLED":
+                    withdrawn_at = i
+                continue
             fired = [t for t in a["trace"] if t[2]]
             interrupted = any(t[2] == "KeyboardInterrupt" for t in fired)
             # ---- process-global state (sys.path, cwd, zzq_* modules, builtins, hooks, warning filters ...)
@@ -407,6 +450,19 @@ class C13(Prop):
                 out.append([out[-1][0], "redisplay"])
         return out
 
+    def _cell_mops(self, pf):
+        """model ops of every cell: hook invocations read off the trace; third-party registrations as foreign steps"""
+        import c14
+        fids = c14.ForeignIds()
+        out = []
+        for a in pf["cells"]:
+            a, _ = without_logging_error(a)
+            if a["kind"] == "foreign":
+                out.append(fids.map(a["text"]))
+            else:
+                out.append([["invoke", hook, oc] for hook, oc in self._invocations(a)])
+        return out
+
     def model_requests(self, case, obs):
         pf = obs["pf"]
         if case.get("config", "terminal") != "terminal":
@@ -418,11 +474,9 @@ class C13(Prop):
         if any(f.get("exc") == "KeyboardInterrupt" for f in case.get("faults", [])):
             return []          # BaseException is outside the model (and the property)
         mops = [["enable", False, fail]]
-        self._marks = getattr(self, "_marks", {})
         marks = []
-        for a in pf["cells"]:
-            for hook, oc in self._invocations(a):
-                mops.append(["invoke", hook, oc])
+        for seg in self._cell_mops(pf):
+            mops.extend(seg)
             marks.append(len(mops) - 1)
         mcfg = dict(resetDisabler=self._variant["resetDisabler"], debugHookSafe=self._variant["debugHookSafe"],
                     redisplayGuard=self._variant["redisplayGuard"], debug=False)
@@ -437,9 +491,10 @@ class C13(Prop):
         imp = pf["enable"]["importer"]
         if (imp["state"], imp["errored"], imp["ndisablers"]) != (m["state"], m["errored"], m["ndis"]):
             return f"after enable: impl={imp} model={(m['state'], m['errored'], m['ndis'])}"
+        cell_mops = self._cell_mops(pf)
         for i, a in enumerate(pf["cells"]):
             a, _ = without_logging_error(a)
-            inv = self._invocations(a)
+            inv = cell_mops[i]
             seg = steps[pos + 1: pos + 1 + len(inv)]
             pos += len(inv)
             m = steps[pos]
@@ -458,6 +513,8 @@ class C13(Prop):
                 return f"cell {i}: ast_transformers impl={ga} model={wa}"
             # escapes: the model says `exception` for some invocation of the cell  <=>  the shell saw a pyflyby exception.
             # (the prompt-redisplay failure is an environment-triggered extra escape; it is compared separately below)
+            if a.get("level_before") == "DEBUG" or a["kind"] in ("level", "foreign"):
+                continue      # debug mode re-raises by design; the state trajectory above does not depend on it
             m_esc = any(s["delivered"] == "exception" for s in seg)
             o_esc = bool(a["escaped"]) or any(e and MARK in e[1] for e in (a.get("err"), a.get("err_before"))) \
                 or (MARK in (a["stdout"] + a["stderr"])) or redisplay_failure(a) == "pt_cli" \
@@ -568,7 +625,19 @@ class C13(Prop):
         return failure.get("what") == "pyflyby's logger printed a 'Logging error' traceback" \
             and "badstr" in failure.get("msgs", [])
 
+    @staticmethod
+    def fam_midloop(case, failure):
+        """the AST transformer withdraws while IPython iterates over ip.ast_transformers: the next (third-party)
+        transformer is skipped for that one cell"""
+        if failure.get("ck") not in ("probe", "probe_known") or failure.get("what") != "the cell's outcome differs from the pyflyby-free run":
+            return False
+        tr = failure.get("trace") or []
+        got, want = failure.get("got") or {}, failure.get("want") or {}
+        return bool(tr) and all(t[1] == "astVisit" for t in tr) and set(failure.get("fields", [])) <= {"result", "stdout"} \
+            and "+seen_by_" in str(want.get("result")) and "+seen_by_" not in str(got.get("result"))
+
     families = {"D23_debug_statement_hook_unprotected": fam_d23.__func__,
+                "withdrawal_inside_transformer_loop_skips_next": fam_midloop.__func__,
                 "unprintable_exception_logging_error": fam_logging.__func__,
                 "user_traceback_shows_wrapper_frames": fam_frames.__func__,
                 "dotted_completion_swallows_internal_errors": fam_attr_local.__func__,
